@@ -1,5 +1,15 @@
-(* HashTableP.v - proofs about HashTable.v: representation invariant, abstraction to a finite
-   multimap with per-bucket FIFO order, simulation of every operation (DESIGN Appendix C.3). *)
+(* HashTableP.v - proofs about HashTable.v (DESIGN Appendix C.3).
+   Section P : representation invariant [Rep] with ghost witnesses (chains of the buckets, free list),
+               abstraction [abs] to per-bucket lists, the functional versions (names a_...) of the operations, and
+               for every operation a simulation theorem concrete result = abstract result + Rep preserved
+               (lyht_find_sim, lyht_find_next_sim, insert_sim, lyht_remove_sim, lyht_resize_sim).
+   Section A : facts about the abstract functions alone: shapes of their results, the only error is
+               E_ABORT and why (a_insert_shape, a_remove_shape, a_resize_shape); sub-section AK: when the
+               callback decides equality of a key and no two records share (hash, key) nothing fails
+               (a_insert_keyed, a_remove_keyed) and the content changes as a finite set does.
+   Then      : Rep_partition, operation sequences on the instance run by impl/t_ht.c (nht_run_sim,
+               a_nrun_checked_total, a_nrun_lf, the nht_new_ theorems), the lyht_dup and uint32 wrap findings,
+               set_val_sim (in-place update used by the dictionary). *)
 From LY Require Import Base HashTable.
 From LY.Gen Require Import Consts.
 From Coq Require Import ZifyBool ZifyNat ZifyN Permutation.
